@@ -67,6 +67,33 @@ func makeRV(t types.Type, v value, addr *value, ro bool) value {
 	return structure{rtype{t}, v, addr, ro}
 }
 
+// reflectValueIdentical models == on two reflect.Values (type word, data pointer and flags
+// are compared): same type and flags, and the same variable (addressable values) or the
+// same reference (pointer-shaped kinds: pointers, maps, channels, functions). Whether two
+// boxed copies of a non-pointer-shaped value share their box is not modelled.
+func (i *interpreter) reflectValueIdentical(x, y structure) bool {
+	a, b := rv(x), rv(y)
+	if !a.valid || !b.valid {
+		return a.valid == b.valid
+	}
+	if !types.Identical(a.t, b.t) || a.ro != b.ro || (a.addr == nil) != (b.addr == nil) {
+		return false
+	}
+	if a.addr != nil {
+		return a.addr == b.addr
+	}
+	switch a.t.Underlying().(type) {
+	case *types.Pointer, *types.Map, *types.Chan, *types.Signature:
+		defer func() {
+			if recover() != nil {
+				panic(unsupported("== on reflect.Values holding %s", a.t))
+			}
+		}()
+		return a.v == b.v
+	}
+	panic(unsupported("== on reflect.Values holding boxed %s values", a.t))
+}
+
 func invalidRV() value {
 	return structure{iface{}, iface{}, iface{}, iface{}}
 }
@@ -1460,6 +1487,29 @@ func ext۰reflect۰Value۰Recv(fr *frame, args []value) value {
 		panic(strPanic(i, "reflect: recv on send-only channel"))
 	}
 	v, ok := i.chanRecv(fr, r.v.(*channel))
+	if !ok {
+		return tuple{makeRV(ct.Elem(), zero(ct.Elem()), nil, false), false}
+	}
+	return tuple{makeRV(ct.Elem(), v, nil, false), true}
+}
+
+// TryRecv: a receive that does not block. If it would block the result is the zero Value
+// and false; on a closed channel the element type's zero value and false.
+func ext۰reflect۰Value۰TryRecv(fr *frame, args []value) value {
+	i := fr.i
+	r := rv(args[0])
+	if r.kind() != reflect.Chan {
+		panic(i.valueError("reflect.Value.TryRecv", r.kind()))
+	}
+	ct := r.t.Underlying().(*types.Chan)
+	if ct.Dir() == types.SendOnly {
+		panic(strPanic(i, "reflect: recv on send-only channel"))
+	}
+	ch, _ := r.v.(*channel)
+	if ch == nil || (len(ch.buf) == 0 && len(ch.sendq) == 0 && !ch.closed) {
+		return tuple{invalidRV(), false}
+	}
+	v, ok := i.chanRecv(fr, ch)
 	if !ok {
 		return tuple{makeRV(ct.Elem(), zero(ct.Elem()), nil, false), false}
 	}
